@@ -651,6 +651,12 @@ def _mk_tracer_methods():
 
     def __bool__(self):
         self._ev("bool")
+        if "truth_seed" in Tracer.SCRIPT:
+            import zlib
+            cnt = Tracer.SCRIPT.setdefault("_cnt", {})
+            i = cnt.get(str(self._id), 0)
+            cnt[str(self._id)] = i + 1
+            return zlib.crc32(f"{Tracer.SCRIPT['truth_seed']}:{self._id}:{i}".encode()) % 3 != 0
         t = Tracer.SCRIPT.get("truth", {})
         v = t.get(str(self._id), True)
         if isinstance(v, list):
@@ -730,7 +736,12 @@ def _snapshot_vars(d):
     for k, v in d.items():
         if k in ("t", "fn", "s", "f", "exc_cls", "__builtins__") or k.startswith("__"):
             continue
-        out[k] = (type(v).__name__, _tid(v))
+        tn = type(v).__name__
+        if tn in ("function", "EvalFuncVar", "EvalFunc"):
+            tn = "function"      # a def binds a function object (pyscript's own kind of function object)
+            out[k] = (tn, "function")
+            continue
+        out[k] = (tn, _tid(v))
     return out
 
 
@@ -785,6 +796,8 @@ async def _run_both(source, mode, script, presets, extra=None):
                 g = gctx.global_sym_table
         except BaseException as e:  # noqa
             err = type(e).__name__
+            if err == "UnboundLocalError" and script.get("name_errors_alike"):
+                err = "NameError"   # pyscript's closure cells raise the base class (see NOT_DECIDED of C01/C03)
         Tracer.SCRIPT = dict(script, fail_at=None)  # observing the outcome must not trigger scripted failures
         n_events = len(Tracer.LOG)
         rec = {"result": (type(res).__name__, _tid(res)) if mode == "eval" and err is None else None,
@@ -2894,6 +2907,205 @@ async def c04_triggers_bounded(w):
     return {"unit": "state change -> State.update -> trigger loop -> function call", "method": "real subsystems vs the statement's qualifying predicate",
             "bound": f"{len(C04_TRIGGERS)} trigger forms x histories of <= {depth} changes from {steps}", "cases": cases, "distinct_nontrivial": nontriv,
             "samples": samples, "failures": failures, "reproduced": bool(failures)}
+
+
+# ---------------------------------------------------------------------------------------------------------
+# C01 / C02: random programs over tracer values, real interpreter vs CPython
+# ---------------------------------------------------------------------------------------------------------
+class _Gen:
+    def __init__(self, rng):
+        self.rng = rng
+        self.n = 0
+        self.vars = ["a", "b", "c"]
+
+    def tid(self):
+        self.n += 1
+        return self.n
+
+    def atom(self):
+        r = self.rng.random()
+        if r < 0.55:
+            return f"t({self.tid()})"
+        if r < 0.85:
+            return self.rng.choice(self.vars)
+        return self.rng.choice(["1", "'s'", "None", "True"])
+
+    def expr(self, d):
+        rng = self.rng
+        if d <= 0 or rng.random() < 0.25:
+            return self.atom()
+        k = rng.choice(["bin", "bin", "unary", "cmp", "cmp2", "bool", "bool3", "ifexp", "list", "tuple", "dict", "set", "sub", "slice", "attr", "call", "call2",
+                        "fstr", "walrus", "lcomp", "dcomp", "scomp", "not", "star", "lambda"])
+        e = lambda: self.expr(d - 1)
+        if k == "bin":
+            return f"({e()} {rng.choice(['+', '-', '*', '/', '%', '**', '<<', '>>', '|', '^', '&', '//', '@'])} {e()})"
+        if k == "unary":
+            return f"({rng.choice(['-', '+', '~'])}{e()})"
+        if k == "not":
+            return f"(not {e()})"
+        if k == "cmp":
+            return f"({e()} {rng.choice(['==', '!=', '<', '<=', '>', '>=', 'in', 'not in', 'is', 'is not'])} {e()})"
+        if k == "cmp2":
+            return f"({e()} {rng.choice(['<', '==', 'in'])} {e()} {rng.choice(['<=', '!=', 'is'])} {e()})"
+        if k == "bool":
+            return f"({e()} {rng.choice(['and', 'or'])} {e()})"
+        if k == "bool3":
+            op = rng.choice(['and', 'or'])
+            return f"({e()} {op} {e()} {op} {e()})"
+        if k == "ifexp":
+            return f"({e()} if {e()} else {e()})"
+        if k == "list":
+            return "[" + ", ".join(e() for _ in range(rng.randrange(0, 3))) + "]"
+        if k == "tuple":
+            return "(" + "".join(e() + ", " for _ in range(rng.randrange(1, 3))) + ")"
+        if k == "dict":
+            return "{" + ", ".join(f"{e()}: {e()}" for _ in range(rng.randrange(0, 2))) + "}"
+        if k == "set":
+            return "{" + ", ".join(e() for _ in range(rng.randrange(1, 3))) + "}"
+        if k == "sub":
+            return f"{e()}[{e()}]"
+        if k == "slice":
+            return f"{e()}[{e()}:{e()}]"
+        if k == "attr":
+            return f"{e()}.{rng.choice(['x', 'y'])}"
+        if k == "call":
+            # callees are plain functions: calling an arbitrary object makes the interpreter probe it (asyncio.iscoroutinefunction),
+            # which only an instrumented __getattr__ can observe
+            return f"fn({self.tid()})({e()})"
+        if k == "call2":
+            return f"fn({self.tid()})({e()}, k={e()}, *[{e()}], **{{'m': {e()}}})"
+        if k == "fstr":
+            return "f\"" + "p{" + e().replace('"', "'") + rng.choice(["", "!r", "!s"]) + "}q\""
+        if k == "walrus":
+            return f"({rng.choice(self.vars)} := {e()})"
+        if k == "lcomp":
+            return f"[{e()} for {rng.choice(['x', 'y'])} in {e()}" + (f" if {e()}" if rng.random() < 0.4 else "") + "]"
+        if k == "dcomp":
+            return f"{{x: {e()} for x in {e()}}}"
+        if k == "scomp":
+            return f"{{{e()} for x in {e()}}}"
+        if k == "star":
+            return f"[*{e()}, {e()}]"
+        if k == "lambda":
+            return f"fn({self.tid()})((lambda z: {e()}))"
+        return self.atom()
+
+    def target(self, d):
+        r = self.rng.random()
+        if r < 0.5:
+            return self.rng.choice(self.vars)
+        if r < 0.7:
+            return f"{self.expr(d - 1)}.x"
+        if r < 0.9:
+            return f"{self.expr(d - 1)}[{self.expr(d - 1)}]"
+        return f"{self.rng.choice(self.vars)}, {self.rng.choice(self.vars)}"
+
+    def block(self, d, ind, in_loop):
+        n = self.rng.randrange(1, 3)
+        return "".join(self.stmt(d, ind, in_loop) for _ in range(n))
+
+    def stmt(self, d, ind, in_loop=False):
+        rng = self.rng
+        pad = "    " * ind
+        kinds = ["assign", "assign", "aug", "expr", "expr", "del", "assert", "pass"]
+        if d > 0:
+            kinds += ["if", "while", "for", "try", "try2", "with", "def", "ann"]
+        if in_loop:
+            kinds += ["break", "continue"]
+        k = rng.choice(kinds)
+        if k == "assign":
+            return f"{pad}{self.target(2)} = {self.expr(2)}\n"
+        if k == "aug":
+            t = rng.choice([rng.choice(self.vars), f"{self.atom()}.x", f"{self.atom()}[{self.atom()}]"])
+            return f"{pad}{t} {rng.choice(['+=', '-=', '*='])} {self.expr(1)}\n"
+        if k == "ann":
+            return f"{pad}{rng.choice(self.vars)}: {self.expr(1)} = {self.expr(1)}\n"
+        if k == "expr":
+            return f"{pad}{self.expr(2)}\n"
+        if k == "del":
+            return f"{pad}del {self.atom()}[{self.atom()}]\n" if rng.random() < 0.7 else f"{pad}del {self.atom()}.x\n"
+        if k == "assert":
+            return f"{pad}assert {self.expr(1)}, {self.expr(1)}\n"
+        if k == "pass":
+            return f"{pad}s({self.tid()})\n"
+        if k == "break":
+            return f"{pad}break\n"
+        if k == "continue":
+            return f"{pad}continue\n"
+        if k == "if":
+            out = f"{pad}if {self.expr(1)}:\n" + self.block(d - 1, ind + 1, in_loop)
+            if rng.random() < 0.5:
+                out += f"{pad}elif {self.expr(1)}:\n" + self.block(d - 1, ind + 1, in_loop)
+            if rng.random() < 0.5:
+                out += f"{pad}else:\n" + self.block(d - 1, ind + 1, in_loop)
+            return out
+        if k == "while":
+            # the loop test always involves a fresh tracer, so every iteration logs an event and the runaway guard can stop it
+            out = f"{pad}while t({self.tid()}) and {self.expr(1)}:\n" + self.block(d - 1, ind + 1, True)
+            if rng.random() < 0.4:
+                out += f"{pad}else:\n" + self.block(d - 1, ind + 1, in_loop)
+            return out
+        if k == "for":
+            out = f"{pad}for {rng.choice(['x', 'a', 'x, y'])} in {self.expr(1)}:\n" + self.block(d - 1, ind + 1, True)
+            if rng.random() < 0.4:
+                out += f"{pad}else:\n" + self.block(d - 1, ind + 1, in_loop)
+            return out
+        if k == "try":
+            out = f"{pad}try:\n" + self.block(d - 1, ind + 1, in_loop)
+            out += f"{pad}except {rng.choice(['Exception', 'TracerError', 'KeyError', '(KeyError, TracerError)'])}" + rng.choice(["", " as e"]) + ":\n" + self.block(d - 1, ind + 1, in_loop)
+            if rng.random() < 0.4:
+                out += f"{pad}else:\n" + self.block(d - 1, ind + 1, in_loop)
+            if rng.random() < 0.5:
+                out += f"{pad}finally:\n" + self.block(d - 1, ind + 1, False)
+            return out
+        if k == "try2":
+            return f"{pad}try:\n" + self.block(d - 1, ind + 1, in_loop) + f"{pad}finally:\n" + self.block(d - 1, ind + 1, False)
+        if k == "with":
+            return f"{pad}with {self.expr(1)}" + rng.choice(["", " as c", f" as c, {self.atom()}"]) + ":\n" + self.block(d - 1, ind + 1, in_loop)
+        if k == "def":
+            nm = rng.choice(["g", "h"])
+            body = self.block(d - 1, ind + 1, False) + "    " * (ind + 1) + f"return {self.expr(1)}\n"
+            return f"{pad}def {nm}(p, q={self.expr(1)}):\n" + body + f"{pad}{rng.choice(self.vars)} = {nm}({self.expr(1)})\n"
+        return f"{pad}pass\n"
+
+
+async def c01_random_bounded(w):
+    """Bounded stand-in beyond the templates: random programs (expressions and statements of the subset, over tracer values whose
+    special methods log every call; truth values, iteration lengths and one scripted failure point chosen at random) run by the real
+    interpreter and by CPython; outcome kind, exception type, final variables and the ORDER of effects must agree."""
+    import random
+    await boot_full()
+    rng = random.Random(7000 + int(w.get("seed", 0)))
+    n = int(w.get("programs", 300))
+    mode_stmt = w.get("what", "both")
+    failures, cases, seen = [], 0, set()
+    for i in range(n):
+        g = _Gen(rng)
+        if mode_stmt == "expr" or (mode_stmt == "both" and rng.random() < 0.4):
+            src, mode = g.expr(3), "eval"
+        else:
+            src, mode = "".join(g.stmt(2, 0) for _ in range(rng.randrange(1, 4))), "exec"
+        try:
+            compile(src, "<r>", mode, dont_inherit=True)
+        except SyntaxError:
+            continue
+        script = {"truth_seed": rng.randrange(10 ** 6), "iter_len": rng.randrange(0, 3), "suppress": rng.random() < 0.3, "name_errors_alike": True}
+        if rng.random() < 0.5:
+            script["fail_at"] = rng.randrange(0, 12)
+        try:
+            cp, ps = await asyncio.wait_for(_run_both(src, mode, script, ["a", "b", "c"], {"s": True}), 20)
+        except Exception as e:  # noqa
+            cp, ps = {"harness": "error"}, {"harness": repr(e)}
+        cases += 1
+        if cp != ps:
+            diff = [k for k in cp if cp.get(k) != ps.get(k)]
+            sig = (tuple(diff), cp.get("exception"), ps.get("exception"))
+            if len(failures) < int(w.get("max_failures", 3)):
+                failures.append({"signature": f"random:{src!r}:{script}", "source": src, "mode": mode, "script": {k: v for k, v in script.items() if not k.startswith("_")},
+                                 "differs_in": diff, "cpython": {k: cp.get(k) for k in diff}, "pyscript": {k: ps.get(k) for k in diff}})
+    await shutdown()
+    return {"unit": "AstEval on random programs", "method": "real interpreter vs CPython on tracer values", "bound": f"{n} random programs (expression depth <= 3, statement depth <= 2), seeded",
+            "cases": cases, "failures": failures, "reproduced": bool(failures)}
 
 
 async def c04_classification_bounded(w):
